@@ -383,6 +383,13 @@ func allIntrinsics() map[string]intrinsicImpl {
 	c(symPkg+".Iff", func(m *Machine, fr *frame, args []value) value {
 		return m.c.Eq(args[0].(*smt.Term), args[1].(*smt.Term))
 	})
+	c(symPkg+".Option", func(m *Machine, fr *frame, args []value) value {
+		if m.extra == nil {
+			m.extra = map[string]interface{}{}
+		}
+		m.extra["opt:"+m.argStr(args[0])] = args[1].(*smt.Term).IsTrue()
+		return nil
+	})
 	c(symPkg+".Fail", func(m *Machine, fr *frame, args []value) value {
 		m.assert(fr, m.c.False, m.argStr(args[0]))
 		return nil
@@ -861,6 +868,71 @@ func registerStdIntrinsics(c func(string, intrinsicImpl)) {
 		name := fmt.Sprintf("crc32_%d", len(in))
 		return m.c.App(name, smt.BV(32), m.concat(in))
 	})
+	// FNV-1a (64 bit): state' = (state ^ byte) * prime.  The multiplication by
+	// the odd prime is modelled as an uninterpreted bijection M (inverse
+	// axiom per application); the xor is exact.  sym.Option("fnv.real", true)
+	// makes the real code run instead (step lemmas).
+	c("(*hash/fnv.sum64a).Write", func(m *Machine, fr *frame, args []value) value {
+		if on, _ := m.extra["opt:fnv.real"].(bool); on {
+			return declined{}
+		}
+		p := args[0].(*value)
+		if p == nil {
+			panic(runtimeErr{"invalid memory address or nil pointer dereference"})
+		}
+		h := (*p).(*smt.Term)
+		data := m.bytesOf(args[1])
+		for _, b := range data {
+			h = m.fnvMul(m.c.BvBin(smt.OBvXor, h, m.c.ZeroExt(b, 64)))
+		}
+		*p = h
+		return tuple{m.intTerm(len(data)), iface{}}
+	})
+	// encoding/binary big/little endian fixed-width accessors as concat/extract
+	for _, e := range []struct {
+		typ string
+		big bool
+	}{{"bigEndian", true}, {"littleEndian", false}} {
+		for _, w := range []int{16, 32, 64} {
+			w, isBig := w, e.big
+			c(fmt.Sprintf("(encoding/binary.%s).Uint%d", e.typ, w), func(m *Machine, fr *frame, args []value) value {
+				bs := m.bytesOf(args[1])
+				n := w / 8
+				if len(bs) < n {
+					panic(runtimeErr{"index out of range (binary.ByteOrder)"})
+				}
+				var t *smt.Term
+				for i := 0; i < n; i++ {
+					b := bs[i]
+					if !isBig {
+						b = bs[n-1-i]
+					}
+					if t == nil {
+						t = b
+					} else {
+						t = m.c.Concat(t, b)
+					}
+				}
+				return t
+			})
+			c(fmt.Sprintf("(encoding/binary.%s).PutUint%d", e.typ, w), func(m *Machine, fr *frame, args []value) value {
+				sl := args[1].(sliceV)
+				n := w / 8
+				if sl.n < n {
+					panic(runtimeErr{"index out of range (binary.ByteOrder)"})
+				}
+				v := args[2].(*smt.Term)
+				for i := 0; i < n; i++ {
+					hi := w - 1 - 8*i
+					if !isBig {
+						hi = 8*i + 7
+					}
+					m.store(m.indexAddr(sl, m.intTerm(i)), m.c.Extract(hi, hi-7, v))
+				}
+				return nil
+			})
+		}
+	}
 	c("hash/crc32.MakeTable", func(m *Machine, fr *frame, args []value) value {
 		poly := uint32(m.conc(args[0].(*smt.Term), "crc poly"))
 		t := crc32.MakeTable(poly)
@@ -957,6 +1029,23 @@ func (m *Machine) nativeBasic(a value) (interface{}, bool) {
 }
 
 var errorIface = types.Universe.Lookup("error").Type().Underlying().(*types.Interface)
+
+func (m *Machine) fnvMul(x *smt.Term) *smt.Term {
+	const prime64 = 1099511628211
+	c := m.c
+	if x.IsConst() {
+		r := c.BVConst(64, x.V*prime64)
+		if !m.concrete {
+			m.addPC(c.Eq(c.App("fnvmul64", smt.BV(64), x), r))
+			m.addPC(c.Eq(c.App("fnvmulinv64", smt.BV(64), r), x))
+		}
+		return r
+	}
+	c.SetInjective("fnvmul64")
+	t := c.App("fnvmul64", smt.BV(64), x)
+	m.addPC(c.Eq(c.App("fnvmulinv64", smt.BV(64), t), x))
+	return t
+}
 
 func (m *Machine) crcPoly(tab value) uint32 {
 	p, ok := tab.(*value)
